@@ -13,6 +13,9 @@ def dispatch(prop):
     if prop in ("C04", "C08", "C15", "C17"):
         from . import props_env
         return getattr(props_env, prop.lower())
+    if prop == "C14":
+        from . import exchange_check
+        return exchange_check.c14
     raise SystemExit("no check registered for %s" % prop)
 
 
